@@ -1442,6 +1442,7 @@ func parsePauseCommaList(p *ParserZH, consumer consumerFunc) {
 
 func parseItemListBlock(p *ParserZH, blockIndent int, consumer func()) {
 	for (p.peek().Type != TypeEOF) && p.getPeekIndent() == blockIndent {
+		verifTick()
 		consumer()
 	}
 }
